@@ -64,6 +64,23 @@ def rand_admg(rng: random.Random, nmin=2, nmax=6, cyclic=False) -> dict:
     return {"nodes": nodes, "dir": di, "bid": bi}
 
 
+def rand_admg_big(rng: random.Random, cyclic=False) -> dict:
+    """A sparse graph on 8..10 nodes (the names V0..V9 allow ten): code that treats 'large' inputs differently has to be reached too."""
+    n = rng.randint(8, 10)
+    order = list(range(n))
+    rng.shuffle(order)
+    pd, pb = rng.choice((0.1, 0.15, 0.2)), rng.choice((0.05, 0.1, 0.15))
+    di = [[order[i], order[j]] for i in range(n) for j in range(i + 1, n) if rng.random() < pd]
+    bi = [[order[i], order[j]] if rng.random() < 0.5 else [order[j], order[i]] for i in range(n) for j in range(i + 1, n) if rng.random() < pb]
+    if cyclic:
+        a, b = rng.sample(range(n), 2)
+        if [a, b] not in di:
+            di.append([a, b])
+    nodes = list(range(n))
+    rng.shuffle(nodes); rng.shuffle(di); rng.shuffle(bi)
+    return {"nodes": nodes, "dir": di, "bid": bi}
+
+
 def all_admgs(n: int):
     """Every labelled ADMG on nodes 0..n-1 (acyclic directed part, any bidirected part)."""
     pairs = list(itt.combinations(range(n), 2))
